@@ -543,6 +543,91 @@ def reply_forms(d):
     return later
 
 
+DOWNCAST_ERROR_BODY = ("{iferr.is::<Error>(){err.downcast::<Error>().unwrap()}elseiferr.is::<StdError>(){err.downcast::<StdError>().unwrap().into()}"
+                       "else{StdError::generic_err(err.to_string()).into()}}")
+MT_FILES = ("contract/mt.rs", "interface/mt.rs", "rt:multitest.rs")
+MT_OPS = [("ExecProxy::new(&self.contract_addr,msg,&self.app)", "exec-proxy"),
+          ("(*self.app).querier().query_wasm_smart(self.contract_addr.clone(),&msg).map_err(Into::into)", "smart-query"),
+          ("(*self.app).app_mut().wasm_sudo(self.contract_addr.clone(),&msg).map_err(#sylvia::multitest::downcast_error)", "wasm-sudo"),
+          ("MigrateProxy::new(&self.contract_addr,msg,&self.app)", "migrate-proxy")]
+
+
+def mt_tables(d):
+    """multitest helpers: (a) call sites that unwrap a downcast of the chain's error, (b) per proxy method kind the constructor that builds
+    the message and the chain operation it is handed to, (c) defaults / setters / call forms of the instantiate proxy and of ExecProxy,
+    (d) which message kind each of the six `Contract` operations decodes and dispatches"""
+    out = {"unwrap": [], "proxy": [], "defaults": [], "setters": [], "forms": [], "bodies": []}
+    for fname in MT_FILES:
+        for fn in d.files.get(fname, {}).get("fns", []):
+            if re.search(r"\.map_err\(\|\w+\|\w+\.downcast(::<[^>]*>)?\(\)\.unwrap\(\)\)", fn["body"] or ""):
+                out["unwrap"].append("%s:%s::%s" % (fname, fn["container"], fn["name"]))
+    fn = d.fn("rt:multitest.rs", "", "downcast_error")
+    out["downcast_form"] = fn is not None and fn["body"] == DOWNCAST_ERROR_BODY
+    if not out["downcast_form"]:
+        d.problems.append("multitest::downcast_error: body no longer has the recognised three-way form")
+    for fname in ("contract/mt.rs", "interface/mt.rs"):
+        fn = d.fn(fname, "MsgVariant", "emit_mt_method_definition")
+        if fn is None:
+            d.problems.append("%s: emit_mt_method_definition not found" % fname)
+            continue
+        if "letarguments=self.as_fields_names();" not in fn["body"] or "letname=name.to_case(Case::Snake);" not in fn["body"]:
+            d.problems.append("%s: proxy methods no longer take the handler's parameters in order / the constructor's name" % fname)
+        for kind, rest in re.findall(r"MsgType::(\w+)=>\{?quote!\{(.*?)\}\}\}?,?(?=MsgType::|_=>)", fn["body"]):
+            m = re.search(r"\{letmsg=#api::#type_name::(#name|new)\(#\(#arguments\),\*\);(?:#sylvia::multitest::)?(.*)$", rest)
+            if not m:
+                d.problems.append("%s: proxy method of kind %s does not build its message with the constructor in the recognised form" % (fname, kind))
+                continue
+            op = dict(MT_OPS).get(m.group(2))
+            if op is None:
+                d.problems.append("%s: proxy method of kind %s hands its message to an unrecognised operation: %s" % (fname, kind, m.group(2)[:80]))
+                continue
+            out["proxy"].append((fname, kind.lower(), m.group(1), op))
+    fn = d.fn("contract/mt.rs", "MtHelpers", "emit_code_id")
+    m = fn and re.search(r"letmsg=#instantiate_msg\{#\(#fields_names,\)\*\};InstantiateProxy::<'_,'app,#\(#generic_params,\)\*_>\{code_id:self,funds:([^,]*),label:([^,]*),admin:([^,]*),salt:([^,]*),msg,\}", fn["body"])
+    if m:
+        out["defaults"] = list(zip(("funds", "label", "admin", "salt"), m.groups()))
+    else:
+        d.problems.append("contract/mt.rs: CodeId::instantiate no longer has the recognised form")
+    fn = d.fn("contract/mt.rs", "MtHelpers", "emit_instantiate_proxy")
+    if fn:
+        for name, body in re.findall(r"pubfn(with_\w+)(?:<[^>]*>)?\(self,[^{]*\)->Self\{(.*?\.\.self\})\}", fn["body"]):
+            m2 = re.fullmatch(r"(?:let(\w+)=\1\.into\(\)(?:\.map\(str::to_owned\))?;)?Self\{(\w+),\.\.self\}", body)
+            out["setters"].append((name, m2.group(2) if m2 else "?"))
+        call = ("letSelf{code_id,funds,label,admin,salt,msg}=self;matchsalt{Some(salt)=>{#instantiate2_body},None=>(*code_id.app).app_mut().instantiate_contract("
+                "code_id.code_id,sender.clone(),&msg,funds,label,admin,).map_err(#sylvia::multitest::downcast_error).map(|addr|#sylvia::multitest::Proxy{contract_addr:addr,")
+        out["forms"].append(("instantiate-call", call in fn["body"]))
+    fn = d.fn("contract/mt.rs", "MtHelpers", "emit_instantiate2_body")
+    if fn:
+        form = ("letmsg=#sylvia::cw_std::WasmMsg::Instantiate2{admin,code_id:code_id.code_id,msg,funds:funds.to_owned(),label:label.to_owned(),salt:salt.into(),};"
+                "letapp_response=(*code_id.app).app_mut().execute(sender.clone(),msg.into()).map_err(#sylvia::multitest::downcast_error::<#error_type>)?;")
+        out["forms"].append(("instantiate2-call", form in fn["body"] and "letmsg=#sylvia::cw_std::to_json_binary(&msg)" in fn["body"]))
+    for cont, name, form in (("ExecProxy", "new", "{Self{funds:&[],contract_addr,msg,app,phantom:PhantomData,}}"), ("ExecProxy", "with_funds", "{Self{funds,..self}}"),
+                             ("ExecProxy", "call", "{(*self.app).app_mut().execute_contract(sender.clone(),Addr::unchecked(self.contract_addr),&self.msg,self.funds,).map_err(|err|" + DOWNCAST_ERROR_BODY + ")}"),
+                             ("MigrateProxy", "call", "{(*self.app).app_mut().migrate_contract(sender.clone(),Addr::unchecked(self.contract_addr),&self.msg,new_code_id,).map_err(downcast_error)}")):
+        fn = d.fn("rt:multitest.rs", cont, name)
+        out["forms"].append(("%s::%s" % (cont, name), fn is not None and fn["body"] == form))
+    fn = d.fn("contract/mt.rs", "", "emit_default_dispatch")
+    out["forms"].append(("default-dispatch", fn is not None and fn["body"].endswith(
+        "letvalues=msg_ty.emit_ctx_values();letmsg_name=msg_ty.as_accessor_wrapper_name();letapi_msg=quote!{<#contract_nameas#sylvia::types::ContractApi>::#msg_name};"
+        "quote!{#sylvia::cw_std::from_json::<#api_msg>(&msg)?.dispatch(self,(#values)).map_err(Into::into)}}")))
+    fn = d.fn("contract/mt.rs", "MtHelpers", "emit_impl_contract")
+    if fn:
+        var_kind = {}
+        for var, k1, k2 in re.findall(r"let(\w+)_body=override_entry_points\.get_entry_point\(MsgType::(\w+)\)\.map\(OverrideEntryPoint::emit_multitest_dispatch\)"
+                                      r"\.unwrap_or_else\(\|\|emit_default_dispatch\(&MsgType::(\w+),contract_name\)\);", fn["body"]):
+            var_kind[var] = k1 if k1 == k2 else "%s/%s" % (k1, k2)
+        m = re.search(r"letmigrate_body=matchoverride_entry_points\.get_entry_point\(MsgType::(\w+)\)\{Some\(entry_point\)=>entry_point\.emit_multitest_dispatch\(\),"
+                      r"Noneifmigrate_variants\.get_only_variant\(\)\.is_some\(\)=>\{emit_default_dispatch\(&MsgType::(\w+),contract_name\)\}None=>quote!\{#sylvia::anyhow::bail!", fn["body"])
+        if m:
+            var_kind["migrate"] = m.group(1) if m.group(1) == m.group(2) else "%s/%s" % m.groups()
+        m = re.search(r"letreply_body=matchoverride_entry_points\.get_entry_point\(MsgType::(\w+)\)\{Some\(entry_point\)=>entry_point\.emit_multitest_dispatch\(\),None=>reply_variants", fn["body"])
+        if m and "dispatch_reply(deps,env,msg,contract).map_err(Into::into)" in fn["body"]:
+            var_kind["reply"] = m.group(1)
+        for f, var in re.findall(r"fn(\w+)\(&self,deps:[^{]*\{#(\w+)_body\}", fn["body"]):
+            out["bodies"].append((f, var_kind.get(var, "?").lower()))
+    return out
+
+
 def template_sites(d):
     """per quote!/parse_quote! template: literal identifiers in path-root position (not after `::` or `#`, followed by `::`), literal
     identifiers declared in a generic-parameter list, and whether some generic-parameter list of the template splices user generics"""
@@ -636,6 +721,7 @@ def generate(dump_lines):
     conv = into_response_tables(d)
     later = reply_forms(d)
     sites = template_sites(d)
+    mt = mt_tables(d)
 
     o = []
     o.append("import Sylvia.Model.Kinds")
@@ -674,6 +760,16 @@ def generate(dump_lines):
     o.append("    does the emitting function splice user generics into a generic-parameter list) -/")
     o.append("def templateSites : List (Str × List Str × List Str × Bool) := %s" % llist(
         "(%s, %s, %s, %s)" % (lstr(a), llist(lstr(x) for x in b), llist(lstr(x) for x in cc), "true" if e else "false") for a, b, cc, e in sites))
+    o.append("/-- multitest: generated / library call sites that still `downcast().unwrap()` the chain's error -/")
+    o.append("def mtUnwrapSites : List Str := %s" % llist(lstr(x) for x in mt["unwrap"]))
+    o.append("def downcastErrorForm : Bool := %s" % ("true" if mt["downcast_form"] else "false"))
+    o.append("/-- multitest proxy methods: (file, handler kind, constructor that builds the message, chain operation) -/")
+    o.append("def mtProxyOps : List (Str × Str × Str × Str) := %s" % llist("(%s, %s, %s, %s)" % tuple(lstr(x) for x in r) for r in mt["proxy"]))
+    o.append("def mtInstDefaults : List (Str × Str) := %s" % llist("(%s, %s)" % (lstr(a), lstr(b)) for a, b in mt["defaults"]))
+    o.append("def mtInstSetters : List (Str × Str) := %s" % llist("(%s, %s)" % (lstr(a), lstr(b)) for a, b in mt["setters"]))
+    o.append("def mtForms : List (Str × Bool) := %s" % llist("(%s, %s)" % (lstr(a), "true" if b else "false") for a, b in mt["forms"]))
+    o.append("/-- `impl cw_multi_test::Contract`: (operation, message kind whose override / default dispatch is spliced into it) -/")
+    o.append("def mtContractBodies : List (Str × Str) := %s" % llist("(%s, %s)" % (lstr(a), lstr(b)) for a, b in mt["bodies"]))
     o.append("def epDefaults : List Kind := %s" % llist("." + KINDS[k] for k in (ep.get("defaults") or []) if k in KINDS))
     o.append("")
     o.append("end Extracted")
